@@ -110,6 +110,7 @@ func init() {
 	propRegistry = append(propRegistry, c16)
 
 	c20 := &Property{ID: "C20", Pkgs: []string{"client/setec"}, Bounds: map[string]string{"fields": "one each of []byte, string, Secret, custom unmarshaler; values arbitrary; each lookup may fail"}}
+	c20.Harnesses = append(c20.Harnesses, ch("verifHarnessC20Parse", map[string]int{}, nil, []string{"end"}, "ParseFields + Apply on a fixed family of struct shapes (supported types, binary unmarshalers by value and by pointer, embedded struct, untagged fields; rejected: unsupported type, empty name with and without verb, no tags, non-pointer, non-struct), values symbolic; reflect is a go/types-backed model"))
 	c20.Harnesses = append(c20.Harnesses, ch("verifHarnessC20Apply", map[string]int{}, nil, []string{"end"}, "Fields.Apply/Secrets on a hand-built field list: per-type assignment, private copy, naming, error isolation"))
 	propRegistry = append(propRegistry, c20)
 }
